@@ -72,14 +72,17 @@ SPEC = {
             } else { r is Err },'''),
     'process_subscription_acknowledgements': ('r', '''        ensures
             final(self).subscriptions@ == old(self).subscriptions@,
-            request.subscription_acknowledgements is None ==> r is None && final(self).retransmission_queue@ == old(self).retransmission_queue@,
+            request.subscription_acknowledgements is None ==> final(self).retransmission_queue@ == old(self).retransmission_queue@
+                && (r is None || r->Some_0@.len() == 0),
             request.subscription_acknowledgements is Some ==> ({
                 let acks = request.subscription_acknowledgements->Some_0@;
                 let subs = old(self).subscriptions@;
                 let q0 = old(self).retransmission_queue@;
-                &&& r is Some && r->Some_0@.len() == acks.len()
-                // one answer per acknowledgement, in order, each judged against what the earlier ones left
-                &&& forall|i: int| 0 <= i < acks.len() ==> ack_ok(#[trigger] r->Some_0@[i], subs, acked(subs, q0, acks, i), acks[i])
+                // one answer per acknowledgement, in order, each judged against what the earlier ones left (no list at all is as good as
+                // an empty one when there is nothing to acknowledge)
+                &&& acks.len() > 0 ==> r is Some
+                &&& r is Some ==> r->Some_0@.len() == acks.len()
+                &&& r is Some ==> forall|i: int| 0 <= i < acks.len() ==> ack_ok(#[trigger] r->Some_0@[i], subs, acked(subs, q0, acks, i), acks[i])
                 &&& final(self).retransmission_queue@ == acked(subs, q0, acks, acks.len() as int)
             }),'''),
 }
